@@ -53,8 +53,10 @@ def check(case):
         # -- expected list from the model after run 1
         expected = []
         failed_kind = set()
+        ran_object = runcheck.ran_object_lookup(run1)
         for f in run1.features:
             for s in f.walk_scenarios():
+                s = ran_object(s)       # the object that RAN, not a rebuilt row
                 st_name = s.status.name
                 if st_name == "failed" or st_name in ERROR_CLASS:
                     expected.append((str(s.location), s.name))
